@@ -44,6 +44,10 @@ impl<'a> PropagationContext<'a> {
     pub fn assignments(&self) -> (r: &EngineAssignments) ensures r == self.assignments { self.assignments }
     // falsified = the negation is true on the trail (predicates handed to nogoods are negatable)
     #[verifier::external_body]
+    pub fn is_predicate_satisfied(&self, predicate: Predicate) -> (r: bool)
+        ensures r == self.assignments.is_true(predicate),
+    { unimplemented!() }
+    #[verifier::external_body]
     pub fn is_predicate_falsified(&self, predicate: Predicate) -> (r: bool)
         ensures r == self.assignments.is_true(pred_negation(predicate)), r ==> pred_negatable(predicate),
     { unimplemented!() }
